@@ -157,12 +157,12 @@ Local Open Scope string_scope.
    147  archive_write_disk_posix.c:1684  [archive_write_data_block]  ARCHIVE_STATE_DATA
    148  archive_write_disk_posix.c:1712  [archive_write_data]  ARCHIVE_STATE_DATA
    149  archive_write_disk_posix.c:1726  [archive_write_finish_entry]  ARCHIVE_STATE_HEADER | ARCHIVE_STATE_DATA
-   150  archive_write_disk_posix.c:1966  [archive_write_disk_set_group_lookup]  ARCHIVE_STATE_ANY
-   151  archive_write_disk_posix.c:1985  [archive_write_disk_set_user_lookup]  ARCHIVE_STATE_ANY
-   152  archive_write_disk_posix.c:2001  [archive_write_disk_gid]  ARCHIVE_STATE_ANY
-   153  archive_write_disk_posix.c:2012  [archive_write_disk_uid]  ARCHIVE_STATE_ANY
-   154  archive_write_disk_posix.c:2565  [archive_write_disk_close]  ARCHIVE_STATE_HEADER | ARCHIVE_STATE_DATA
-   155  archive_write_disk_posix.c:2714  [archive_write_disk_free]  ARCHIVE_STATE_ANY | ARCHIVE_STATE_FATAL
+   150  archive_write_disk_posix.c:1979  [archive_write_disk_set_group_lookup]  ARCHIVE_STATE_ANY
+   151  archive_write_disk_posix.c:1998  [archive_write_disk_set_user_lookup]  ARCHIVE_STATE_ANY
+   152  archive_write_disk_posix.c:2014  [archive_write_disk_gid]  ARCHIVE_STATE_ANY
+   153  archive_write_disk_posix.c:2025  [archive_write_disk_uid]  ARCHIVE_STATE_ANY
+   154  archive_write_disk_posix.c:2578  [archive_write_disk_close]  ARCHIVE_STATE_HEADER | ARCHIVE_STATE_DATA
+   155  archive_write_disk_posix.c:2727  [archive_write_disk_free]  ARCHIVE_STATE_ANY | ARCHIVE_STATE_FATAL
    156  archive_write_disk_windows.c:842  [archive_write_disk_header]  ARCHIVE_STATE_HEADER | ARCHIVE_STATE_DATA
    157  archive_write_disk_windows.c:1069  [archive_write_disk_set_skip_file]  ARCHIVE_STATE_ANY
    158  archive_write_disk_windows.c:1165  [archive_write_data_block]  ARCHIVE_STATE_DATA
